@@ -8,6 +8,7 @@ import (
 	"fmt"
 	"os"
 	"path/filepath"
+	"runtime/pprof"
 	"strconv"
 	"strings"
 	"time"
@@ -23,7 +24,14 @@ func main() {
 	repo := flag.String("repo", envOr("VERIF_REPO", "/repo"), "repository to analyse")
 	verif := flag.String("verif", envOr("VERIF_DIR", "/verif"), "verif directory (evidence, known findings)")
 	dump := flag.String("dump", "", "debug: census")
+	cpuprof := flag.String("cpuprofile", "", "write a CPU profile")
 	flag.Parse()
+	if *cpuprof != "" {
+		f, _ := os.Create(*cpuprof)
+		pprof.StartCPUProfile(f)
+		defer pprof.StopCPUProfile()
+		go func() { time.Sleep(60 * time.Second); pprof.StopCPUProfile(); os.Exit(3) }()
+	}
 	if *tier == "" {
 		*tier = "quick"
 	}
@@ -78,7 +86,9 @@ func main() {
 		c.Census["module functions (hand-written, with body)"] = len(p.HandFuncs())
 		res.Merge(c, cfg.String())
 	}
-	os.Exit(res.Finish(*verif, known))
+	code := res.Finish(*verif, known)
+	pprof.StopCPUProfile()
+	os.Exit(code)
 }
 
 func envOr(k, d string) string {
